@@ -24,7 +24,9 @@ from ..replay import call_real
 LETTERS = ISet([(65, 90)])
 SUBST = ['stdnum.isbn', 'stdnum.ean', 'stdnum.issn', 'stdnum.ismn', 'stdnum.imei', 'stdnum.isni', 'stdnum.iban', 'stdnum.lei', 'stdnum.iso11649',
          'stdnum.grid', 'stdnum.ca.sin', 'stdnum.fr.siren', 'stdnum.il.idnr', 'stdnum.se.orgnr', 'stdnum.in_.aadhaar', 'stdnum.in_.vid',
-         'stdnum.hr.oib', 'stdnum.de.idnr', 'stdnum.de.vat']
+         'stdnum.hr.oib', 'stdnum.de.idnr', 'stdnum.de.vat',
+         # further national numbers whose whole digit string is protected by Luhn / ISO 7064 (list fixed on the pinned tree)
+         'stdnum.no.kontonr', 'stdnum.gr.amka', 'stdnum.it.iva', 'stdnum.rs.pib', 'stdnum.za.idnr', 'stdnum.gn.nifp', 'stdnum.il.hp', 'stdnum.za.tin']
 TRANSP = ['stdnum.isbn', 'stdnum.issn', 'stdnum.isni', 'stdnum.iban', 'stdnum.lei', 'stdnum.iso11649', 'stdnum.in_.aadhaar', 'stdnum.in_.vid']
 # ISBN-13 (EAN) is not claimed for transpositions, ISBN-10 is: lengths
 TRANSP_LENGTHS = {'stdnum.isbn': {9, 10}}
@@ -140,7 +142,10 @@ def bounded(rep, tier):
     n = 0
     for m in SUBST:
         mod = importlib.import_module(m)
+        hit = set()
         for x in corpus.valid_numbers(m, 6 if tier == 'quick' else 40):
+            if hit:
+                break
             try:
                 v = mod.validate(x)
             except Exception:      # noqa: B902
@@ -157,7 +162,10 @@ def bounded(rep, tier):
                     if mod.is_valid(y):
                         rep.refuted('C17/%s/corpus' % m, m, 'corpus substitution', 'substitution accepted: %r -> %r' % (v, y),
                                     dict(function=m + ':validate', input=v, altered=y), True, still_fails)
+                        hit.add('s')
                         break
+                if hit:
+                    break
             if m in TRANSP and (m not in TRANSP_LENGTHS or len(v) in TRANSP_LENGTHS[m]):
                 for i in range(len(v) - 1):
                     if v[i] != v[i + 1] and v[i].isdigit() and v[i + 1].isdigit():
@@ -173,7 +181,7 @@ def bounded(rep, tier):
 def check(prop, tier, args):
     rep = Report('C17', tier, 'proof', './check C17 --tier %s' % tier, seed=int(os.environ.get('VERIF_SEED', '0') or 0))
     mods = [m for m in SUBST if not args.modules or m in args.modules]
-    units = accept.accepting_units()
+    units = accept.accepting_units(modules=mods if args.modules else None)
     items = [(m, sorted({n for o, n in units.get(m, []) if n != 'long'}), tier) for m in mods if m in units]
     res = accept.run_modules(_task, items, 900 if tier == 'quick' else 5000)
     for m in sorted(res):
